@@ -445,7 +445,8 @@ class SeqEnv:
         return ("seqenv", self.faults, self.time)
 
     def __init__(self, chooser, *, segment=False, faults=0, fault_kinds=None, fp=None,
-                 eof_anywhere=False, seg_cost=0, starve="hang", fault_ops=None):
+                 eof_anywhere=False, seg_cost=0, starve="hang", fault_ops=None, seg_filter=None):
+        self.seg_filter = seg_filter    # optional predicate(op) -> bool: may this read be cut?
         self.chooser = chooser
         self.segment = segment
         self.faults = faults
@@ -487,7 +488,7 @@ class SeqEnv:
                         raise Hang(f"read on T{tr.id} with nothing to read and peer not closed")
             else:
                 menu.append((f"all{avail}", ("ok", avail)))
-                if self.segment:
+                if self.segment and (self.seg_filter is None or self.seg_filter(op)):
                     for j in range(1, avail):
                         menu.append((f"seg{j}", ("ok", j)))
                 if self.eof_anywhere:
